@@ -410,7 +410,7 @@ func (s *Sim) opMisuse(op *Op) {
 		if op.W == 1 {
 			f = fi.B
 		}
-		if !f.CanRegister() {
+		if !fi.Typed() || !f.CanRegister() {
 			s.skip(op)
 			return
 		}
